@@ -544,8 +544,9 @@ def rule_fixed_weight(chk, prog):
             elif t.startswith("std::vector<double"):
                 initx = Vec([F(-1)] * 3, "double")
                 env[d["did"]] = Box(initx)
-            elif t in ("unsigned int", "const unsigned int", "size_t", "unsigned long") and d.get("name") == "n":
-                env[d["did"]] = Box(3)
+            elif t in ("unsigned int", "const unsigned int", "size_t", "unsigned long", "const size_t", "const unsigned long") and d.get("init") is not None \
+                    and "size()" in norm(d["init"]):
+                env[d["did"]] = Box(3)          # the number of rectangles, whatever the local is called
             elif t in ("unsigned int", "size_t", "unsigned long", "int"):
                 env[d["did"]] = Box(0)
         it = Interp(prog, Oracle([]), globals={"vpsc::Rectangle::xBorder": Box(F(0)), "vpsc::Rectangle::yBorder": Box(F(0))})
